@@ -104,6 +104,14 @@ def build_rows(cfg):
             for _ in range(size):
                 rows.append((f"s{s}", _plate_name(cfg["layout"], s, j), TREAT, round(0.11 + 0.01 * g, 4), j in obs_pos))
                 g += 1
+    if cfg.get("rows") == "wells-interleaved":
+        # the same experiments listed in another row order: the first wells of all plates, then the second wells (a two-well
+        # plate then spans the rows of other plates; nothing in the statement depends on the order of the rows)
+        seen, first, rest = set(), [], []
+        for r in rows:
+            (rest if r[1] in seen else first).append(r)
+            seen.add(r[1])
+        rows = first + rest
     m = cfg.get("mplate")
     if m:
         # the wells of the multi-sample plate: sample indices in row order (default s0, s1); "spread": its first well is the
@@ -176,6 +184,8 @@ def configurations(tier):
                 continue
             for k in b["k"]:
                 out.append({"variant": "prospective", "k": k, "samples": samples, "layout": layout})
+                if layout == b["layouts"][0] and len(samples) <= 2 and sum(o for _, o in samples) >= 1:
+                    out.append({"variant": "prospective", "k": k, "samples": samples, "layout": layout, "rows": "wells-interleaved"})
     mb = b["multi_batch_variant"]
     for samples in _tuples(_sample_opts(mb["unobserved_plates_per_sample"][1], 0), mb["samples"][-1]):
         for k in mb["k"]:
